@@ -328,6 +328,11 @@ def _find_path_recursive(
     else:
         visited.add(start)
 
+    # an equivalence declared between these very units (for instance between two
+    # squares) would be hidden by reducing both to their roots
+    if end in _ratios[start]:
+        return [(_ratios[start][end], _offsets[start].get(end, 0), end)]
+
     exponent, start, end = _reduce_dimension(start, end)
 
     best_path: Path = []
